@@ -102,19 +102,19 @@ pub fn run(ctx: &'static Ctx) {
         let person = ("Person".to_string(), tdcheck::sv(&[("name", "string")]));
         let td = |member_ty: &str, v: J| -> String { tdcheck::simple_doc(vec![("Msg".into(), tdcheck::sv(&[("x", member_ty)])), person.clone()], "Msg", J::obj(vec![("x", v)])).to_json().to_text() };
         let r: Result<(), String> = match site {
-            "td-struct-member" => guard(|| { let _ = tdcheck::observe(&td("Person", J::Str(text.clone()))); }),
-            "td-array-member" => guard(|| { let _ = tdcheck::observe(&td("string[]", J::Str(text.clone()))); }),
-            "td-uint-member" => guard(|| { let _ = tdcheck::observe(&td("uint256", J::Str(text.clone()))); }),
-            "td-address-member" => guard(|| { let _ = tdcheck::observe(&td("address", J::Str(text.clone()))); }),
-            "td-bytes32-member" => guard(|| { let _ = tdcheck::observe(&td("bytes32", J::Str(format!("0x{text}")))); }),
-            "td-bool-member" => guard(|| { let _ = tdcheck::observe(&td("bool", J::Str(text.clone()))); }),
-            "td-type-name" => guard(|| { let _ = tdcheck::observe(&td(&text, J::n("1"))); }),
+            "td-struct-member" => tdcheck::observe(&td("Person", J::Str(text.clone()))).map(|_| ()),
+            "td-array-member" => tdcheck::observe(&td("string[]", J::Str(text.clone()))).map(|_| ()),
+            "td-uint-member" => tdcheck::observe(&td("uint256", J::Str(text.clone()))).map(|_| ()),
+            "td-address-member" => tdcheck::observe(&td("address", J::Str(text.clone()))).map(|_| ()),
+            "td-bytes32-member" => tdcheck::observe(&td("bytes32", J::Str(format!("0x{text}")))).map(|_| ()),
+            "td-bool-member" => tdcheck::observe(&td("bool", J::Str(text.clone()))).map(|_| ()),
+            "td-type-name" => tdcheck::observe(&td(&text, J::n("1"))).map(|_| ()),
             "phrase" => guard(|| { let _ = Mnemonic::from_phrase(&format!("abandon {text} about")); let _ = text.parse::<Mnemonic>(); }),
             "path" => guard(|| { let _ = format!("m/{text}").parse::<hdk::Path>(); let _ = format!("m/0/{text}'/1").parse::<hdk::Path>(); }),
             "signature" => guard(|| { let _ = text.parse::<hdwallet::account::Signature>(); let _ = format!("0x{text}").parse::<hdwallet::account::Signature>(); }),
             tx_site => { let mut f = txjson::tx_fields(&txjson::template(Kind::Eip1559, true), Spell::Auto);
                 match tx_site { "tx-to" => txjson::set(&mut f, "to", Some(J::Str(format!("0x{text}")))), "tx-nonce" => txjson::set(&mut f, "nonce", Some(J::Str(text.clone()))), "tx-data" => txjson::set(&mut f, "data", Some(J::Str(format!("0x{text}")))), _ => txjson::set(&mut f, "accessList", Some(J::Arr(vec![J::Str(text.clone())]))) }
-                let doc = J::Obj(f).to_text(); guard(|| { let _ = observe_tx(&doc, &Signer::Fixed(U256::from_u64(1), U256::from_u64(1), false)); }) }
+                let doc = J::Obj(f).to_text(); observe_tx(&doc, &Signer::Fixed(U256::from_u64(1), U256::from_u64(1), false)).map(|_| ()) }
         };
         crash(ctx, "diagnostic-echo", i, &shape, site, &format!("{} bytes, shift {shift}", text.len()), r);
     });
